@@ -247,6 +247,7 @@ func c15template(c *core.Check) {
 	if st == nil {
 		return
 	}
+	c15goTypesOrder(c, st)
 	units := []unit{{Set: "reflection", Def: "", Name: "File", DotRel: "generator/golang", DotType: "Scope", Lists: []int{0, 1, 2}, Cats: []string{"I32"}}}
 	agg := newAggregate()
 	runUnits(c, st, units, func(r *rendered) {
